@@ -117,3 +117,19 @@ def describe(case):
     percall = sum(1 for o in ops if o[0] == "call" and o[1]["form"] != "none")
     return "%s pool=%s ops=%d calls=%d percall=%d inplan=%d" % (case.get("gen", "corpus"), case.get("pool", "?"),
                                                              len(ops), ncall, min(percall, 2), min(inplan, 3))
+
+
+def model_search(rng, tier):
+    """Proof or correspondence broke and no implementation-side failure was seen: look for a history on which the
+    MODEL itself leaves the specification outside the finding class (boolean restatement of the theorem)."""
+    from harness import core
+    cs = [G.rand_history(rng, maxops=6) for _ in range(300 if tier == "quick" else 3000)]
+    terms = ["finding_C18_a %s || lobs_eqb (run_hist %s) (spec_hist %s)" % ((D.history_term(c),) * 3) for c in cs]
+    try:
+        ok, bad, _ = core.eval_cases_in_coq(ID + "_search", COQ_IMPORTS, terms)
+    except Exception:
+        return None
+    if ok and bad:
+        c = min((cs[i] for i in bad), key=lambda c: len(c["ops"]))
+        return {"case": c, "what": "model run differs from the live-subscription specification outside class C18-a"}
+    return None
